@@ -262,9 +262,9 @@ impl SwiftField for Field50F {
 
         if lines.len() > 2 && lines[1].starts_with('/') {
             let party_id = &lines[1][1..]; // Remove leading slash
-            if party_id.len() > 34 {
+            if party_id.is_empty() || party_id.len() > 34 {
                 return Err(ParseError::InvalidFormat {
-                    message: "Field 50F party identifier exceeds 34 characters".to_string(),
+                    message: "Field 50F party identifier must be 1-34 characters".to_string(),
                 });
             }
             parse_swift_chars(party_id, "Field 50F party identifier")?;
@@ -280,8 +280,22 @@ impl SwiftField for Field50F {
                     message: "Field 50F name/address line exceeds 35 characters".to_string(),
                 });
             }
+            if line.is_empty() {
+                return Err(ParseError::InvalidFormat {
+                    message: "Field 50F name/address line is empty".to_string(),
+                });
+            }
             parse_swift_chars(line, "Field 50F name/address")?;
             name_and_address.push(line.to_string());
+        }
+
+        if name_and_address.len() > 4 {
+            return Err(ParseError::InvalidFormat {
+                message: format!(
+                    "Field 50F cannot have more than 4 name/address lines, found {}",
+                    name_and_address.len()
+                ),
+            });
         }
 
         Ok(Field50F {
